@@ -860,6 +860,36 @@ def m_opt_is_some(it, args, fr, callee):
     return Sc('bool', int(_deref_arg(args[0]).variant == 1))
 
 
+@model('Option::is_some_and', 'std::option::Option::is_some_and')
+def m_opt_is_some_and(it, args, fr, callee):
+    o, f = _deref_arg(args[0]), args[1]
+    if o.variant != 1:
+        return Sc('bool', 0)
+    r = it.call_value(f, [o.fields[0]], fr)
+    return r
+
+
+@model('Option::is_none_or', 'std::option::Option::is_none_or')
+def m_opt_is_none_or(it, args, fr, callee):
+    o, f = _deref_arg(args[0]), args[1]
+    if o.variant != 1:
+        return Sc('bool', 1)
+    return it.call_value(f, [o.fields[0]], fr)
+
+
+@model('BTreeMap::into_values', 'HashMap::into_values', 'std::collections::BTreeMap::into_values', 'std::collections::HashMap::into_values',
+       'BTreeMap::values', 'HashMap::values')
+def m_map_values(it, args, fr, callee):
+    # values in insertion order (a BTreeMap yields them in key order: with symbolic keys the order is left to the consumer's
+    # order-independence obligation, as for HashSet iteration)
+    m = _deref_arg(args[0])
+    if type(m) is not MapV:
+        return NotImplemented
+    byref = callee.split('<')[0].endswith('::values')
+    items = [Ref([v], 0) if byref else v for _, v in m.items]
+    return IterV(iter(items), 'map.values', exact=len(items))
+
+
 @model('Option::is_none', 'std::option::Option::is_none')
 def m_opt_is_none(it, args, fr, callee):
     return Sc('bool', int(_deref_arg(args[0]).variant == 0))
@@ -1243,6 +1273,25 @@ def m_slice_first(it, args, fr, callee):
     return some(Ref(s.buf, s.start)) if n > 0 else none()
 
 
+@model('core::slice::split_first', 'slice::split_first', 'core::slice::split_first_mut', 'slice::split_first_mut')
+def m_slice_split_first(it, args, fr, callee):
+    s = as_slice(args[0])
+    n = it.concretize(Sc('usize', s.len), 'slice length')
+    if n == 0:
+        return none()
+    return some(Agg('tuple', None, [Ref(s.buf, s.start), Slice(s.buf, _addv(s.start, 1) if not isinstance(s.start, int) else s.start + 1, n - 1)]))
+
+
+@model('core::slice::split_last', 'slice::split_last', 'core::slice::split_last_mut', 'slice::split_last_mut')
+def m_slice_split_last(it, args, fr, callee):
+    s = as_slice(args[0])
+    n = it.concretize(Sc('usize', s.len), 'slice length')
+    if n == 0:
+        return none()
+    last = s.start + n - 1 if isinstance(s.start, int) else _addv(s.start, n - 1)
+    return some(Agg('tuple', None, [Ref(s.buf, last), Slice(s.buf, s.start, n - 1)]))
+
+
 @model('core::slice::last', 'slice::last', 'core::slice::last_mut')
 def m_slice_last(it, args, fr, callee):
     s = as_slice(args[0])
@@ -1413,6 +1462,11 @@ def to_iter(it, x, fr):
         return IterV(iter(list(x.fields)), 'array.into_iter', exact=len(x.fields))
     if type(x) is Agg and x.ty == 'Option':
         return IterV(iter(list(x.fields) if x.variant == 1 else []), 'option.iter')
+    if type(x) is MapV:
+        # HashSet / HashMap / BTree* consumed by value (`for p in set`, `vec.extend(set)`): insertion order; order-irrelevance of the
+        # consumer is the caller's obligation (C08 decides it through the "no destination word twice" clause)
+        items = [k if x.kind == 'set' else Agg('tuple', None, [k, v]) for k, v in x.items]
+        return IterV(iter(items), 'map.into_iter', exact=len(items))
     if type(x) is Agg and x.ty == 'Result':
         # impl IntoIterator for Result<T, E>: yields the Ok value, nothing for Err
         return IterV(iter(list(x.fields) if x.variant == 0 else []), 'result.into_iter')
@@ -1890,6 +1944,17 @@ def m_hashmap_default(it, args, fr, callee):
 @tmodel('HashSet', 'Default', 'default')
 def m_hashset_default(it, args, fr, callee):
     return MapV('set')
+
+
+@tmodel('HashSet', 'From', 'from')
+def m_hashset_from_array(it, args, fr, callee):
+    a = args[0]
+    if type(a) is Agg and a.ty == 'array':
+        m = MapV('set')
+        for x in a.fields:
+            map_insert(it, m, x, UNIT, fr)
+        return m
+    return NotImplemented
 
 
 @model('HashMap::insert', 'std::collections::HashMap::insert', 'BTreeMap::insert')
@@ -2882,6 +2947,20 @@ def m_str_strip_prefix(it, args, fr, callee):
     if type(s) is StrV and type(p) is StrV:
         return some(StrV(s.s[len(p.s):])) if s.s.startswith(p.s) else none()
     raise Unsupported('str::strip_prefix')
+
+
+@model('core::str::parse', 'str::parse')
+def m_str_parse(it, args, fr, callee):
+    # `"3".parse::<usize>()` on a concrete string (e.g. the arity suffix of `split_head$arity3` in the generated runtime)
+    s = _deref_all(args[0])
+    g = last_generics(split_path(callee)[-1])
+    ty = it.subst(g[0], fr) if g else ''
+    if type(s) is StrV and ty in ('usize', 'u64', 'u32', 'u16', 'u8'):
+        txt = s.s[1:] if s.s.startswith('+') else s.s
+        if txt.isdigit() and int(txt) <= mask(INT_W[ty]):
+            return ok(Sc(ty, int(txt)))
+        return err(Opaque('ParseIntError'))
+    raise Unsupported('str::parse::<%s> on %r' % (ty, s))
 
 
 # float classification predicates ------------------------------------------------------------------------
